@@ -33,6 +33,7 @@ def install(eng):
     install_config(eng)
     b['heapq.heappush'] = _heappush
     b['sys.setrecursionlimit'] = lambda eng, e, st, args, kw: PNone()
+    install_os(eng)
     b['heapq.heappop'] = _heappop
 
 
@@ -361,3 +362,56 @@ def install_config(eng):
     b[CONFIG_CLS + '.getint'] = _cfg_getint
     b[CONFIG_CLS + '.getboolean'] = _cfg_getboolean
     b[CONFIG_CLS + '.has_option'] = _cfg_has
+
+
+# ------------------------------------------------------------------ files, threads, time, input
+FILE_CLS = 'builtins:file'
+THREAD_CLS = 'threading:Thread'
+
+
+def _open(eng, e, st, args, kw):
+    """open(name, mode): a file object, or IOError/OSError (both outcomes are explored)."""
+    _use(eng, 'open() returns a file object or raises IOError')
+    k = st.choose(2)
+    if k == 1:
+        raise RaisePath(st, 'IOError')
+    mode = args[1] if len(args) > 1 else kw.get('mode', zstr('r'))
+    return PObj(FILE_CLS, {'name': args[0], 'mode': mode})
+
+
+def _cfg_write(eng, e, st, args, kw):
+    """ConfigParser.write(file): the file now holds exactly the parser's options (ghost $disk)."""
+    obj = args[0]
+    if '$disk' in st.env:
+        st.env['$disk'] = obj.fields['opts']
+    return PNone()
+
+
+def _thread(eng, e, st, args, kw):
+    return PObj(THREAD_CLS, {'daemon': zbool(False)})
+
+
+def _input(eng, e, st, args, kw):
+    """input(): a line, or EOFError (stdin at EOF / closed pipe / /dev/null), or ValueError/OSError
+    (closed descriptor).  All outcomes are explored."""
+    _use(eng, 'input() returns a line or raises EOFError / ValueError / OSError')
+    k = st.choose(4)
+    if k == 1:
+        raise RaisePath(st, 'EOFError')
+    if k == 2:
+        raise RaisePath(st, 'ValueError')
+    if k == 3:
+        raise RaisePath(st, 'OSError')
+    return fresh(TStr, 'input_line')
+
+
+def install_os(eng):
+    b = eng.builtins
+    b['open'] = _open
+    b[CONFIG_CLS + '.write'] = _cfg_write
+    b['threading.Thread'] = _thread
+    b[THREAD_CLS + '.start'] = lambda eng, e, st, args, kw: PNone()
+    b[THREAD_CLS + '.is_alive'] = lambda eng, e, st, args, kw: fresh(TBool, 'is_alive')
+    b['threading.main_thread'] = _thread
+    b['time.sleep'] = lambda eng, e, st, args, kw: PNone()
+    b['input'] = _input
